@@ -9,6 +9,12 @@ PROVED = ["_responsible_party_rule", "_associated_responsible_party_rule", "_con
           "_individual_name_rule", "_other_entity_rule", "_title_rule", "_description_rule"]
 
 
+def task_lemma_lean():
+    return common.lean_task("C19/lemma:fold-filter[Lean]", "C19/lemma:fold-filter/lean-proof", "Folds.lean",
+                            "L-fold-filter is also proved in Lean 4 (lemmas/Folds.lean: fold_filter) by induction over abstract functions that satisfy the ghosts' "
+                            "one-level unfoldings, so the induction principle itself is machine-checked; the z3 obligations tie base and step to the actual ghost symbols")
+
+
 def task_tree_order():
     from pyvc.task import Task
     from contracts.prelude import make_world
@@ -412,6 +418,7 @@ def main(tier, seed):
     # _dataset_rule has ~450 paths: they are partitioned by the decisions 1..4 (abstract present / has text / short / coverage present) over 16 tasks
     specs.append(("props.C19", "task_lemma", {}))
     specs.append(("props.C19", "task_tree_order", {}))
+    specs.append(("props.C19", "task_lemma_lean", {}))
     specs.append(("props.C19", "task_text_content", {}))
     shards = [("props.C19", "task", {"which": "_dataset_rule", "shard": [1, list(bits)]}) for bits in itertools.product((True, False), repeat=4)]
     results = common.run_tasks(specs, procs=16) + common.run_sharded(shards, "C19._dataset_rule")
